@@ -79,7 +79,7 @@ func (prop) Describe() core.Description {
 		RealComponents: []string{"go-geom root package (constructors, Push, accessors)", "encoding/wkb", "encoding/ewkb", "encoding/wkbcommon", "encoding/wkbhex", "encoding/ewkbhex", "wkb/ewkb database/sql Scanner/Valuer wrappers", "stdlib io, encoding/binary, bytes, encoding/hex"},
 		StubComponents: []string{"io.Writer (simio.Writer: failure offset, short/whole-call, sticky/transient; optionally also io.ByteWriter or io.StringWriter)", "io.Reader (simio.Reader: chunking, stalls, data+EOF, error at offset, truncation; optionally also io.ByteReader)", "database/sql driver (Scan/Value are called directly)"},
 		FaultKinds:     []string{"write-fail-sticky-short", "write-fail-sticky-whole", "write-fail-transient", "read-split", "read-stall", "read-data+eof", "read-error", "read-error-with-data", "read-truncate"},
-		Probes:         []string{"probe:error-inside-count", "probe:split-inside-type-word", "probe:stall-before-byte-order", "probe:srid>=2^31", "probe:xdr+zm+empty-member", "probe:nested-collection", "probe:mixed-layout-collection", "probe:empty-point", "probe:rejected-unsupported-layout", "probe:rejected-empty-point", "probe:concatenated>=2", "probe:enum-capped", "probe:member-srid-round-trip", "probe:result-rechecked-after-later-calls", "probe:reader-with-ReadByte", "probe:writer-with-byte", "probe:writer-with-string"},
+		Probes:         []string{"probe:error-inside-count", "probe:split-inside-type-word", "probe:stall-before-byte-order", "probe:srid>=2^31", "probe:xdr+zm+empty-member", "probe:nested-collection", "probe:mixed-layout-collection", "probe:empty-point", "probe:rejected-unsupported-layout", "probe:rejected-empty-point", "probe:concatenated>=2", "probe:enum-capped", "probe:member-srid-round-trip", "probe:result-rechecked-after-later-calls", "probe:wkb-of-geometry-with-srid", "probe:reader-with-ReadByte", "probe:writer-with-byte", "probe:writer-with-string"},
 	}
 }
 
@@ -168,8 +168,10 @@ func (prop) Generate(r *prng.Rand, phase string) any {
 	}
 	for i := 0; i < n; i++ {
 		g := cfg.GenAny(r)
-		if !s.Codec.EWKB {
-			g.S = 0 // plain WKB has no SRID field
+		if !s.Codec.EWKB && r.Chance(0.7) {
+			// plain WKB has no SRID field: the geometry's SRID (kept on the
+			// object in the other 30% of the runs) must simply not be written
+			g.S = 0
 		}
 		stripZeroLayout(g)
 		if s.Codec.EWKB && g.T == mgeom.GC && r.Chance(0.25) {
@@ -479,7 +481,13 @@ func (prop) Execute(scAny any, phase string, log *core.Log) core.Result {
 			e.expect = v.Model
 			e.carve = hasCarveOut(m, s.Codec)
 			if !e.carve {
-				if d := mgeom.Diff(e.expect, m); d != "" {
+				want := m
+				if !s.Codec.EWKB && m.S != 0 {
+					res.Count("probe:wkb-of-geometry-with-srid", 1)
+					want = m.Clone()
+					want.S = 0
+				}
+				if d := mgeom.Diff(e.expect, want); d != "" {
 					panic(fmt.Sprintf("refwkb round trip differs without a carve-out: %s; model %s", d, m))
 				}
 			}
